@@ -58,6 +58,7 @@ type G struct {
 	feat   map[string]int
 	lbl    int
 	ranges []StmtRange
+	pre    []int // typed mode: first-token index of statements in pre-order
 }
 
 func New(r *rand.Rand, o Opts) *G {
